@@ -217,6 +217,8 @@ def ite(c, a, b):
         return a
     if cz is False:
         return b
+    if type(a).__name__ == "HScal" or type(b).__name__ == "HScal":
+        raise OutOfReach("symbolic selection between abstract quaternion scalars")
     if isinstance(a, QScal) or isinstance(b, QScal):
         a, b = QScal.lift(a), QScal.lift(b)
         return QScal(*[ite(c, x, y) for x, y in zip(a.c, b.c)])
@@ -234,6 +236,9 @@ def ite(c, a, b):
 
 
 def scal_eq(a, b):
+    if type(a).__name__ == "HScal" or type(b).__name__ == "HScal":
+        from .skew import HScal
+        return HScal.lift(a) == HScal.lift(b)
     if isinstance(a, (QScal, CScal)):
         return a == b
     if isinstance(b, (QScal, CScal)):
@@ -300,20 +305,23 @@ class IArr:
     """View of a store.  axes[a] is ('fix', e) or ('rng', start, vpos) for each store axis a."""
     qv_value = True
 
-    def __init__(self, store, axes, vshape, quat=False, cplx=False, readonly_copy=False):
+    def __init__(self, store, axes, vshape, quat=False, cplx=False, readonly_copy=False, hcell=False):
         self.store, self.axes, self.vshape, self.quat, self.cplx = store, list(axes), list(vshape), quat, cplx
+        self.hcell = hcell        # cells are abstract quaternion scalars (skew.HScal); no component axis
 
     # construction
     @staticmethod
-    def whole(store, quat=False, cplx=False):
+    def whole(store, quat=False, cplx=False, hcell=False):
         nd = len(store.shape) - (1 if quat else 0)
         axes = [("rng", 0, i) for i in range(nd)]
         if quat:
             axes.append(("comp",))
-        return IArr(store, axes, list(store.shape[:nd]), quat=quat, cplx=cplx)
+        return IArr(store, axes, list(store.shape[:nd]), quat=quat, cplx=cplx, hcell=hcell)
 
     @staticmethod
-    def from_fn(shape, fn, quat=False, cplx=False):
+    def from_fn(shape, fn, quat=False, cplx=False, hcell=False):
+        if hcell:
+            return IArr.whole(Store(tuple(shape), lambda idx: fn(tuple(idx))), hcell=True)
         if quat:
             def cell(idx):
                 q = fn(tuple(idx[:-1]))
@@ -334,7 +342,7 @@ class IArr:
 
     @property
     def dtype(self):
-        return QUAT if self.quat else (C128 if self.cplx else F64)
+        return QUAT if (self.quat or self.hcell) else (C128 if self.cplx else F64)
 
     @property
     def size(self):
@@ -457,7 +465,7 @@ class IArr:
                     axes.append(("rng", ax[1] + offs[vp], newpos[vp]))
             else:
                 axes.append(ax)
-        return "view", IArr(self.store, axes, newshape, quat=self.quat, cplx=self.cplx)
+        return "view", IArr(self.store, axes, newshape, quat=self.quat, cplx=self.cplx, hcell=self.hcell)
 
     def getitem(self, idx):
         kind, r = self._index(idx)
@@ -486,7 +494,7 @@ class IArr:
                     axes.append(("fix", ax[1] + r[ax[2]]))
                 else:
                     axes.append(ax)
-            target = IArr(self.store, axes, [], quat=self.quat, cplx=self.cplx)
+            target = IArr(self.store, axes, [], quat=self.quat, cplx=self.cplx, hcell=self.hcell)
         else:
             target = r
         target._assign(val)
@@ -533,25 +541,32 @@ class IArr:
 
     # derived arrays (fresh stores)
     def map(self, f, quat=None, cplx=None):
-        src = self
+        snap = self._snapshot()          # value semantics: later writes to self are not seen by the result
         q = self.quat if quat is None else quat
         c = self.cplx if cplx is None else cplx
-        return IArr.from_fn(self.vshape, lambda vi: f(src.at(*vi)), quat=q, cplx=c)
+        if self.hcell and quat is None:
+            return IArr.from_fn(self.vshape, lambda vi: f(snap(tuple(vi))), hcell=True)
+        return IArr.from_fn(self.vshape, lambda vi: f(snap(tuple(vi))), quat=q, cplx=c)
 
     def zip(self, o, f, quat=None, cplx=None):
         a = self
         if isinstance(o, IArr):
             shp, fa, fb = _broadcast(a, o)
+            if a.hcell or o.hcell:
+                return IArr.from_fn(shp, lambda vi: f(fa(vi), fb(vi)), hcell=True)
             q = (a.quat or o.quat) if quat is None else quat
             c = (a.cplx or o.cplx) if cplx is None else cplx
             return IArr.from_fn(shp, lambda vi: f(fa(vi), fb(vi)), quat=q, cplx=c)
+        sa = a._snapshot()
+        if a.hcell:
+            return IArr.from_fn(a.vshape, lambda vi: f(sa(tuple(vi)), o), hcell=True)
         q = (a.quat or isinstance(o, QScal)) if quat is None else quat
         c = (a.cplx or isinstance(o, CScal)) if cplx is None else cplx
-        return IArr.from_fn(a.vshape, lambda vi: f(a.at(*vi), o), quat=q, cplx=c)
+        return IArr.from_fn(a.vshape, lambda vi: f(sa(tuple(vi)), o), quat=q, cplx=c)
 
     def copy(self):
         snap = self._snapshot()
-        return IArr.from_fn(self.vshape, lambda vi: snap(vi), quat=self.quat, cplx=self.cplx)
+        return IArr.from_fn(self.vshape, lambda vi: snap(vi), quat=self.quat, cplx=self.cplx, hcell=self.hcell)
 
     def _snapshot(self):
         """Freeze the current contents (later writes to the store are not seen)."""
@@ -598,9 +613,11 @@ class IArr:
                 axes.append(("rng", ax[1], inv[ax[2]]))
             else:
                 axes.append(ax)
-        return IArr(self.store, axes, [self.vshape[p] for p in perm], quat=self.quat, cplx=self.cplx)
+        return IArr(self.store, axes, [self.vshape[p] for p in perm], quat=self.quat, cplx=self.cplx, hcell=self.hcell)
 
     def conj(self):
+        if self.hcell:
+            return self.map(lambda q: q.conj())
         if self.quat:
             return self.map(lambda q: q.conj())
         if self.cplx:
@@ -930,12 +947,13 @@ def _broadcast(a: IArr, b: IArr):
             ma.append(True)
             mb.append(True)
     offa, offb = n - len(sa), n - len(sb)
+    snap_a, snap_b = a._snapshot(), b._snapshot()      # value semantics
 
     def fa(vi):
-        return a.at(*[vi[i] if ma[i] else 0 for i in range(offa, n)])
+        return snap_a(tuple(vi[i] if ma[i] else 0 for i in range(offa, n)))
 
     def fb(vi):
-        return b.at(*[vi[i] if mb[i] else 0 for i in range(offb, n)])
+        return snap_b(tuple(vi[i] if mb[i] else 0 for i in range(offb, n)))
     return shp, fa, fb
 
 
@@ -956,8 +974,14 @@ def _value_fn(val, target: IArr):
     if isinstance(val, (list, tuple)):
         arr = array_from_nested(val)
         return _value_fn(arr, target)
+    if type(val).__name__ == "HScal":
+        return lambda vi: val
     if isinstance(val, (QScal, CScal)) or is_reallike(val):
         v = _frac(val) if isinstance(val, float) else val
+        if target.hcell:
+            from .skew import HScal
+            hv = HScal.lift(v)
+            return lambda vi: hv
         return lambda vi: v
     raise OutOfReach(f"assignment of {type(val).__name__} into an array")
 
@@ -1030,19 +1054,28 @@ def array_from_nested(val, cplx=False):
             c = sand(*[a == b for a, b in zip(vi, idx)])
             res = x if res is None else ite(c, x, res)
         return res
+    if any(type(x).__name__ == "HScal" for x in table.values()):
+        from .skew import HScal
+        return IArr.from_fn(list(shp), lambda vi: HScal.lift(fn(vi)), hcell=True)
     if anyq:
         return IArr.from_fn(list(shp), lambda vi: QScal.lift(fn(vi)), quat=True)
     return IArr.from_fn(list(shp), fn, cplx=anyc)
 
 
-def zeros(shape, quat=False, cplx=False):
+def zeros(shape, quat=False, cplx=False, hcell=False):
+    if hcell:
+        from .skew import HScal
+        return IArr.from_fn(list(shape), lambda vi: HScal.real(0), hcell=True)
     if quat:
         return IArr.from_fn(list(shape), lambda vi: QScal(Fraction(0)), quat=True)
     return IArr.from_fn(list(shape), lambda vi: (CScal(Fraction(0)) if cplx else Fraction(0)), cplx=cplx)
 
 
-def eye(n, m=None, quat=False):
+def eye(n, m=None, quat=False, hcell=False):
     m = n if m is None else m
+    if hcell:
+        from .skew import HScal
+        return IArr.from_fn([n, m], lambda vi: HScal.real(1) if vi[0] == vi[1] else HScal.real(0), hcell=True)
     one, zero = (QScal(Fraction(1)), QScal(Fraction(0))) if quat else (Fraction(1), Fraction(0))
     return IArr.from_fn([n, m], lambda vi: ite(vi[0] == vi[1], one, zero), quat=quat)
 
